@@ -36,6 +36,11 @@ FPredictable ==
 \* scopes whose fortran_generic entries change the rank of an argument get one more C entry point per such
 \* entry (same C parameter types): the signature-level clauses do not apply, the name-level clauses do
 Relaxed == "relaxed" \in DOMAIN T /\ T.relaxed
+\* method tables: Python has one entry per C++ name (overloads, default arguments and template instantiations are
+\* dispatched inside it); a function that stands alone keeps its function_suffix.  Lua has one entry per name.
+CountName(n) == Cardinality({i \in 1..Len(funcs) : funcs[i].name = n})
+PyNameOf(f) == IF CountName(f.name) = 1 /\ f.ndef = 0 /\ f.insts = <<>> THEN f.name \o f.sfx ELSE f.name
+ExpectedPy == {PyNameOf(funcs[i]) : i \in 1..Len(funcs)}
 Verdict ==
   IF ~Relaxed /\ SetOf(CSigs) # ExpectedC THEN
        <<"REJECT", "C entry points do not match the callable signatures",
@@ -56,6 +61,10 @@ Verdict ==
   ELSE IF ~Predictable THEN <<"REJECT", "C name does not follow prefix + scope + underscore name">>
   ELSE IF ~FPredictable THEN <<"REJECT", "Fortran name does not follow scope + underscore name">>
   ELSE IF ~Inj(T.py) THEN <<"REJECT", "Python method table has a duplicate entry">>
+  ELSE IF ~Relaxed /\ T.py # <<>> /\ SetOf(T.py) # ExpectedPy THEN
+       <<"REJECT", "Python method table does not list the documented names", SetOf(T.py), ExpectedPy>>
+  ELSE IF ~Relaxed /\ T.lua # <<>> /\ SetOf(T.lua) # AllNames THEN
+       <<"REJECT", "Lua method table does not list one entry per name", SetOf(T.lua), AllNames>>
   ELSE IF ~Inj(T.lua) THEN <<"REJECT", "Lua method table has a duplicate entry">>
   ELSE <<"ACCEPT", "ok">>
 
